@@ -162,8 +162,12 @@ func LoadRuntime(cfgDir string) (*Runtime, error) {
 			if m := reSrvTmpl.FindStringSubmatch(line); m != nil {
 				// server-template <prefix> <n> <fqdn>[:port] ...: n slots filled by DNS discovery
 				n, _ := strconv.Atoi(m[2])
+				weight := 1
+				if w := reWeight.FindStringSubmatch(line + " "); w != nil {
+					weight, _ = strconv.Atoi(w[1])
+				}
 				for k := 1; k <= n; k++ {
-					cur.Servers = append(cur.Servers, &Server{Name: fmt.Sprintf("%s%d", m[1], k), Addr: m[3], Weight: 1, State: "ready"})
+					cur.Servers = append(cur.Servers, &Server{Name: fmt.Sprintf("%s%d", m[1], k), Addr: m[3], Weight: weight, State: "ready"})
 				}
 			}
 			if m := reServer.FindStringSubmatch(line); m != nil {
